@@ -838,6 +838,11 @@ def _deserialize_graph(
             )
             if initializer_name in value_info:
                 deserialize_value_info_proto(value_info[initializer_name], initializer_value)
+                # An incomplete value_info entry must not erase what the tensor tells us
+                if initializer_value.type is None:
+                    initializer_value.type = _core.TensorType(tensor.dtype)
+                if initializer_value.shape is None:
+                    initializer_value.shape = tensor.shape  # type: ignore[assignment]
             if initializer_value.name in quantization_annotations:
                 _deserialize_quantization_annotation(
                     quantization_annotations[initializer_value.name], initializer_value
